@@ -1,7 +1,7 @@
 (* The entry state machine of props/mod.rs: a property keeps the type it was first
    (successfully) read or written with. *)
 From Coq Require Import List NArith Bool Lia.
-From DesVerif Require Import Props.Spec Props.Model Props.Bytes.
+From DesVerif Require Import Props.Spec Props.Model Props.Bytes Props.Loops Props.Main.
 Import ListNotations.
 Open Scope N_scope.
 
@@ -83,4 +83,82 @@ Corollary other_type_is_error st name t n ty m nm : get_raw name st = ESome t n 
 Proof.
   intros H Ne. cbn [top_step]. rewrite H, typed_fixed. apply N.eqb_neq in Ne. rewrite Ne. cbn [fst snd err_code].
   split; [reflexivity|apply get_raw_put].
+Qed.
+
+(* ---- the same across configurations included while the node already exists ---- *)
+Lemma get_raw_some name st t n : get_raw name st = ESome t n -> s_get name st = Some (ESome t n).
+Proof. unfold get_raw. destruct (s_get name st); [intros ->; reflexivity|discriminate]. Qed.
+
+Lemma include_keeps_typed c path st name t n :
+  get_raw name st = ESome t n -> get_raw name (capture_for c path st) = ESome t n.
+Proof. intros H. unfold get_raw. rewrite (include_keeps_slot c path st name _ (get_raw_some _ _ _ _ H)). reflexivity. Qed.
+
+(* typed accesses to one property of the module at [path], interleaved with late includes *)
+Fixpoint run_entry_l (path : list str) (st : store) (name : str) (ops : list late) : store * list (list N) :=
+  match ops with
+  | [] => (st, [])
+  | LTyped o :: r => let '(st', out) := top_step st name o in
+                     let '(st'', outs) := run_entry_l path st' name r in (st'', out :: outs)
+  | LInclude k v :: r => run_entry_l path (capture_for (cfg_new [(k, v)]) path st) name r
+  end.
+
+Definition typed_of (ops : list late) : list top :=
+  flat_map (fun l => match l with LTyped o => [o] | LInclude _ _ => [] end) ops.
+
+Theorem typed_stable_across_includes : forall ops path st name t n, get_raw name st = ESome t n ->
+  snd (run_entry_l path st name ops) = cell_run t n (typed_of ops) /\
+  exists n', get_raw name (fst (run_entry_l path st name ops)) = ESome t n'.
+Proof.
+  induction ops as [|o r IH]; intros path st name t n H.
+  - split; [reflexivity|exists n; exact H].
+  - destruct o as [o|k v].
+    + cbn [run_entry_l typed_of flat_map app].
+      pose proof (typed_stable [o] st name t n H) as [A [n1 B]]. cbn [run_entry] in A, B.
+      destruct (top_step st name o) as [st' out] eqn:E. cbn [fst snd] in A, B.
+      assert (exists n2, get_raw name st' = ESome t n2 /\ cell_run t n (o :: typed_of r) = out :: cell_run t n2 (typed_of r)) as [n2 [B2 C]].
+      { destruct o as [m nm ty|m nm ty w|m nm]; cbn [cell_run] in A |- *; cbn [top_step] in E; rewrite H, ?typed_fixed in E.
+        - destruct (t =? ty); injection E as <- <-; (exists n; split; [apply get_raw_put|reflexivity]).
+        - destruct (t =? ty) eqn:Et; injection E as <- <-.
+          + apply N.eqb_eq in Et. subst ty. exists (norm_val t w). split; [apply get_raw_put|reflexivity].
+          + exists n. split; [apply get_raw_put|reflexivity].
+        - injection E as <- <-. exists n. split; [apply get_raw_put|reflexivity]. }
+      destruct (IH path st' name t n2 B2) as [A' B'].
+      destruct (run_entry_l path st' name r) as [st'' outs]. cbn [fst snd] in *. fold (typed_of r). rewrite C, A'. split; [reflexivity|exact B'].
+    + cbn [run_entry_l typed_of flat_map app]. apply IH. apply include_keeps_typed. exact H.
+Qed.
+
+(* accesses to other properties do not matter either: whatever late operations run on the module, a property
+   that has a type keeps it *)
+Lemma top_step_other st name o k : str_eqb k name = false -> s_get k (fst (top_step st name o)) = s_get k st.
+Proof.
+  intros H. destruct o as [m nm ty|m nm ty w|m nm]; cbn [top_step].
+  - destruct (typed ty (get_raw name st)) as [e r]. cbn [fst]. apply s_get_put_other. exact H.
+  - destruct (typed ty (get_raw name st)) as [e [er|]]; cbn [fst]; apply s_get_put_other; exact H.
+  - cbn [fst]. apply s_get_put_other. exact H.
+Qed.
+
+Lemma top_step_type st name o t n : get_raw name st = ESome t n ->
+  exists n', get_raw name (fst (top_step st name o)) = ESome t n'.
+Proof.
+  intros H. destruct (typed_stable [o] st name t n H) as [_ [n' B]]. cbn [run_entry] in B.
+  destruct (top_step st name o) as [st' out]. cbn [fst] in *. exists n'. exact B.
+Qed.
+
+Fixpoint run_module_l (path : list str) (st : store) (ops : list late) : store :=
+  match ops with
+  | [] => st
+  | LTyped o :: r => run_module_l path (fst (top_step st (top_name o) (top_norm o))) r
+  | LInclude k v :: r => run_module_l path (capture_for (cfg_new [(k, v)]) path st) r
+  end.
+
+Theorem late_keeps_type : forall ops path st name t n, get_raw name st = ESome t n ->
+  exists n', get_raw name (run_module_l path st ops) = ESome t n'.
+Proof.
+  induction ops as [|o r IH]; intros path st name t n H; [exists n; exact H|].
+  destruct o as [o|k v]; cbn [run_module_l].
+  - destruct (str_eqb name (top_name o)) eqn:E.
+    + apply str_eqb_eq in E. subst name. destruct (top_step_type st (top_name o) (top_norm o) t n H) as [n1 H1].
+      exact (IH path _ _ t n1 H1).
+    + apply (IH path _ name t n). unfold get_raw. rewrite top_step_other by exact E. exact H.
+  - apply (IH path _ name t n). apply include_keeps_typed. exact H.
 Qed.
